@@ -199,6 +199,8 @@ HIST_ALPHABET = [['clouds_pressure', 1e1], ['clouds_pressure', 1e3], ['clouds_pr
                  ['lee_mie_mix_ratio', 1e-16], ['lee_mie_mix_ratio', 1e-9], ['lee_mie_radius', 0.3], ['lee_mie_q', 5.0],
                  ['T', 700.0], ['atm_max_pressure', 1e5], ['atm_max_pressure', 1e7], ['atm_min_pressure', 1e-3],
                  ['atm_min_pressure', 1e1]]
+# requested spectral windows of equal length at both ends of the native grid, and the full grid again
+HIST_ALPHABET += [['__window__', [1000.0, 2000.0]], ['__window__', [3000.0, 4000.0]], ['__window__', None]]
 HIST_REDUCED = [['clouds_pressure', 1e1], ['clouds_pressure', 1e5], ['flat_topP', 1e0], ['flat_topP', -1],
                 ['flat_bottomP', 1e2], ['lee_mie_topP', 1e3], ['lee_mie_bottomP', 1e2], ['atm_max_pressure', 1e7],
                 ['atm_min_pressure', 1e-3]]
